@@ -432,7 +432,7 @@ theorem insertAt_comm (g1 g2 : GUpd) :
 
 /-! ### `register` as an end-of-way update; registrations in different slots commute -/
 
-def regG (verb : Bytes) (mid : Nat) (mk : Unit → Outcome Meth) : GUpd := fun methods all =>
+def regGCore (verb : Bytes) (mid : Nat) (mk : Unit → Outcome Meth) : GUpd := fun methods all =>
   let existing := if verb == starVerb then all else lookupMeth methods verb
   match existing with
   | some e => if e.mid != mid then .err "duplicate-rule" else .ok (methods, all)
@@ -442,10 +442,10 @@ def regG (verb : Bytes) (mid : Nat) (mk : Unit → Outcome Meth) : GUpd := fun m
     | .err k => .err k
     | .panic s => .panic s
 
-theorem register_eq_applyG (verb : Bytes) (mid : Nat) (mk : Unit → Outcome Meth) (n : Node) :
-    register n verb mid mk = applyG (regG verb mid mk) n := by
+theorem registerCore_eq_applyG (verb : Bytes) (mid : Nat) (mk : Unit → Outcome Meth) (n : Node) :
+    registerCore n verb mid mk = applyG (regGCore verb mid mk) n := by
   obtain ⟨segs, methods, all, vars⟩ := n
-  simp only [register, applyG, regG]
+  simp only [registerCore, applyG, regGCore]
   cases hex : (if verb == starVerb then all else lookupMeth methods verb) with
   | some e =>
     simp only
@@ -458,10 +458,10 @@ theorem register_eq_applyG (verb : Bytes) (mid : Nat) (mk : Unit → Outcome Met
     | panic s => rfl
 
 /-- a kind-`*` registration reads and writes `methodAll` only. -/
-theorem regG_star (mid : Nat) (mk : Unit → Outcome Meth) (ms : List (Bytes × Meth)) (al : Option Meth)
-    (p : List (Bytes × Meth) × Option Meth) (h : regG starVerb mid mk ms al = .ok p) :
-    p.1 = ms ∧ ∀ ms', regG starVerb mid mk ms' al = .ok (ms', p.2) := by
-  simp only [regG, beq_self_eq_true, if_true] at h ⊢
+theorem regGCore_star (mid : Nat) (mk : Unit → Outcome Meth) (ms : List (Bytes × Meth)) (al : Option Meth)
+    (p : List (Bytes × Meth) × Option Meth) (h : regGCore starVerb mid mk ms al = .ok p) :
+    p.1 = ms ∧ ∀ ms', regGCore starVerb mid mk ms' al = .ok (ms', p.2) := by
+  simp only [regGCore, beq_self_eq_true, if_true] at h ⊢
   cases al with
   | some e =>
     simp only at h ⊢
@@ -478,12 +478,12 @@ theorem regG_star (mid : Nat) (mk : Unit → Outcome Meth) (ms : List (Bytes × 
     | panic s => rw [hm] at h; simp at h
 
 /-- a verb registration reads and writes `methods` only. -/
-theorem regG_verb (verb : Bytes) (hv : verb ≠ starVerb) (mid : Nat) (mk : Unit → Outcome Meth)
+theorem regGCore_verb (verb : Bytes) (hv : verb ≠ starVerb) (mid : Nat) (mk : Unit → Outcome Meth)
     (ms : List (Bytes × Meth)) (al : Option Meth) (p : List (Bytes × Meth) × Option Meth)
-    (h : regG verb mid mk ms al = .ok p) :
-    p.2 = al ∧ ∀ al', regG verb mid mk ms al' = .ok (p.1, al') := by
+    (h : regGCore verb mid mk ms al = .ok p) :
+    p.2 = al ∧ ∀ al', regGCore verb mid mk ms al' = .ok (p.1, al') := by
   have hs : (verb == starVerb) = false := by simpa using hv
-  simp only [regG, hs, Bool.false_eq_true, if_false] at h ⊢
+  simp only [regGCore, hs, Bool.false_eq_true, if_false] at h ⊢
   cases hl : lookupMeth ms verb with
   | some e =>
     rw [hl] at h
@@ -502,13 +502,13 @@ theorem regG_verb (verb : Bytes) (hv : verb ≠ starVerb) (mid : Nat) (mk : Unit
     | panic s => rw [hm] at h; simp at h
 
 /-- what a verb registration does to the verb map. -/
-theorem regG_verb_methods (verb : Bytes) (hv : verb ≠ starVerb) (mid : Nat) (mk : Unit → Outcome Meth)
+theorem regGCore_verb_methods (verb : Bytes) (hv : verb ≠ starVerb) (mid : Nat) (mk : Unit → Outcome Meth)
     (ms : List (Bytes × Meth)) (al : Option Meth) (p : List (Bytes × Meth) × Option Meth)
-    (h : regG verb mid mk ms al = .ok p) :
+    (h : regGCore verb mid mk ms al = .ok p) :
     (∃ e, lookupMeth ms verb = some e ∧ p.1 = ms) ∨
     (∃ m, lookupMeth ms verb = none ∧ mk () = .ok m ∧ p.1 = upsertMeth ms verb m) := by
   have hs : (verb == starVerb) = false := by simpa using hv
-  simp only [regG, hs, Bool.false_eq_true, if_false] at h
+  simp only [regGCore, hs, Bool.false_eq_true, if_false] at h
   cases hl : lookupMeth ms verb with
   | some e =>
     rw [hl] at h
@@ -525,14 +525,14 @@ theorem regG_verb_methods (verb : Bytes) (hv : verb ≠ starVerb) (mid : Nat) (m
     | panic s => rw [hm] at h; simp at h
 
 /-- **registrations in different slots commute.** -/
-theorem regG_comm (verb1 verb2 : Bytes) (mid1 mid2 : Nat) (mk1 mk2 : Unit → Outcome Meth)
-    (hslot : verb1 ≠ verb2) : GComm (regG verb1 mid1 mk1) (regG verb2 mid2 mk2) := by
+theorem regGCore_comm (verb1 verb2 : Bytes) (mid1 mid2 : Nat) (mk1 mk2 : Unit → Outcome Meth)
+    (hslot : verb1 ≠ verb2) : GComm (regGCore verb1 mid1 mk1) (regGCore verb2 mid2 mk2) := by
   intro ms al p1 p12 p2 p21 h1 h12 h2 h21
   by_cases s1 : verb1 = starVerb
   · subst s1
     have s2 : verb2 ≠ starVerb := Ne.symm hslot
-    obtain ⟨e1, f1⟩ := regG_star mid1 mk1 ms al p1 h1
-    obtain ⟨e2, f2⟩ := regG_verb verb2 s2 mid2 mk2 ms al p2 h2
+    obtain ⟨e1, f1⟩ := regGCore_star mid1 mk1 ms al p1 h1
+    obtain ⟨e2, f2⟩ := regGCore_verb verb2 s2 mid2 mk2 ms al p2 h2
     have a12 := f2 p1.2
     rw [← e1] at a12
     have a21 := f1 p2.1
@@ -542,8 +542,8 @@ theorem regG_comm (verb1 verb2 : Bytes) (mid1 mid2 : Nat) (mk1 mk2 : Unit → Ou
     rw [r12, r21]
   · by_cases s2 : verb2 = starVerb
     · subst s2
-      obtain ⟨e1, f1⟩ := regG_verb verb1 s1 mid1 mk1 ms al p1 h1
-      obtain ⟨e2, f2⟩ := regG_star mid2 mk2 ms al p2 h2
+      obtain ⟨e1, f1⟩ := regGCore_verb verb1 s1 mid1 mk1 ms al p1 h1
+      obtain ⟨e2, f2⟩ := regGCore_star mid2 mk2 ms al p2 h2
       have a12 := f2 p1.1
       rw [← e1] at a12
       have a21 := f1 p2.2
@@ -552,15 +552,15 @@ theorem regG_comm (verb1 verb2 : Bytes) (mid1 mid2 : Nat) (mk1 mk2 : Unit → Ou
       have r21 : p21 = (p1.1, p2.2) := ok_inj (h21.symm.trans a21)
       rw [r12, r21]
     · -- two different verbs: the verb map is updated under two different keys
-      obtain ⟨a1, _⟩ := regG_verb verb1 s1 mid1 mk1 ms al p1 h1
-      obtain ⟨a12, _⟩ := regG_verb verb2 s2 mid2 mk2 p1.1 p1.2 p12 h12
-      obtain ⟨a2, _⟩ := regG_verb verb2 s2 mid2 mk2 ms al p2 h2
-      obtain ⟨a21, _⟩ := regG_verb verb1 s1 mid1 mk1 p2.1 p2.2 p21 h21
+      obtain ⟨a1, _⟩ := regGCore_verb verb1 s1 mid1 mk1 ms al p1 h1
+      obtain ⟨a12, _⟩ := regGCore_verb verb2 s2 mid2 mk2 p1.1 p1.2 p12 h12
+      obtain ⟨a2, _⟩ := regGCore_verb verb2 s2 mid2 mk2 ms al p2 h2
+      obtain ⟨a21, _⟩ := regGCore_verb verb1 s1 mid1 mk1 p2.1 p2.2 p21 h21
       have hall : p12.2 = p21.2 := by rw [a12, a1, a21, a2]
-      have m1 := regG_verb_methods verb1 s1 mid1 mk1 ms al p1 h1
-      have m12 := regG_verb_methods verb2 s2 mid2 mk2 p1.1 p1.2 p12 h12
-      have m2 := regG_verb_methods verb2 s2 mid2 mk2 ms al p2 h2
-      have m21 := regG_verb_methods verb1 s1 mid1 mk1 p2.1 p2.2 p21 h21
+      have m1 := regGCore_verb_methods verb1 s1 mid1 mk1 ms al p1 h1
+      have m12 := regGCore_verb_methods verb2 s2 mid2 mk2 p1.1 p1.2 p12 h12
+      have m2 := regGCore_verb_methods verb2 s2 mid2 mk2 ms al p2 h2
+      have m21 := regGCore_verb_methods verb1 s1 mid1 mk1 p2.1 p2.2 p21 h21
       have l12 : lookupMeth p1.1 verb2 = lookupMeth ms verb2 := by
         rcases m1 with ⟨e, _, hp⟩ | ⟨m, _, _, hp⟩
         · rw [hp]
@@ -595,6 +595,50 @@ theorem regG_comm (verb1 verb2 : Bytes) (mid1 mid2 : Nat) (mk1 mk2 : Unit → Ou
                 rw [hp12, hp1, hp21, hp2, em, this]
                 simp only [upsertMeth, upsertKV_comm _ _ _ _ _ hslot]
       exact Prod.ext hms hall
+
+/-- `register` as an end-of-way update: the method record first, then the slot. -/
+def regG (verb : Bytes) (mid : Nat) (mk : Unit → Outcome Meth) : GUpd := fun methods all =>
+  match mk () with
+  | .ok m => regGCore verb mid (fun _ => .ok m) methods all
+  | .err k => .err k
+  | .panic s => .panic s
+
+theorem regG_ok (verb : Bytes) (mid : Nat) (mk : Unit → Outcome Meth) (ms : List (Bytes × Meth)) (al : Option Meth)
+    (p : List (Bytes × Meth) × Option Meth) (h : regG verb mid mk ms al = .ok p) :
+    ∃ m, mk () = .ok m ∧ regGCore verb mid (fun _ => .ok m) ms al = .ok p := by
+  simp only [regG] at h
+  cases hm : mk () with
+  | ok m => rw [hm] at h; exact ⟨m, rfl, h⟩
+  | err e => rw [hm] at h; simp at h
+  | panic s => rw [hm] at h; simp at h
+
+theorem regG_of_mk (verb : Bytes) (mid : Nat) (mk : Unit → Outcome Meth) (m : Meth) (hm : mk () = .ok m)
+    (ms : List (Bytes × Meth)) (al : Option Meth) :
+    regG verb mid mk ms al = regGCore verb mid (fun _ => .ok m) ms al := by
+  simp only [regG, hm]
+
+theorem register_eq_applyG (verb : Bytes) (mid : Nat) (mk : Unit → Outcome Meth) (n : Node) :
+    register n verb mid mk = applyG (regG verb mid mk) n := by
+  obtain ⟨segs, methods, all, vars⟩ := n
+  cases hm : mk () with
+  | ok m =>
+    rw [register_of_mk _ _ _ _ m hm, registerCore_eq_applyG]
+    simp only [applyG, regG_of_mk verb mid mk m hm]
+  | err e => simp [register, applyG, regG, hm]
+  | panic s => simp [register, applyG, regG, hm]
+
+/-- **registrations in different slots commute.** -/
+theorem regG_comm (verb1 verb2 : Bytes) (mid1 mid2 : Nat) (mk1 mk2 : Unit → Outcome Meth)
+    (hslot : verb1 ≠ verb2) : GComm (regG verb1 mid1 mk1) (regG verb2 mid2 mk2) := by
+  intro ms al p1 p12 p2 p21 h1 h12 h2 h21
+  obtain ⟨m1, hm1, c1⟩ := regG_ok _ _ _ _ _ _ h1
+  obtain ⟨m2, hm2, c12⟩ := regG_ok _ _ _ _ _ _ h12
+  obtain ⟨m2', hm2', c2⟩ := regG_ok _ _ _ _ _ _ h2
+  obtain ⟨m1', hm1', c21⟩ := regG_ok _ _ _ _ _ _ h21
+  have e1 : m1' = m1 := ok_inj (hm1'.symm.trans hm1)
+  have e2 : m2' = m2 := ok_inj (hm2'.symm.trans hm2)
+  subst e1; subst e2
+  exact regGCore_comm verb1 verb2 mid1 mid2 _ _ hslot ms al p1 p12 p2 p21 c1 c12 c2 c21
 
 /-- the method record `addRule` stores for a binding (or the error of its body selectors). -/
 def bindingMk (cap : Nat) (resolve : List Bytes → Option Nat) (b : Binding) (mid : Nat) : Unit → Outcome Meth :=
@@ -801,12 +845,12 @@ def slotOf (verb : Bytes) (ms : List (Bytes × Meth)) (al : Option Meth) : Optio
 
 /-- a registration succeeds iff its own slot is free (and the method record can be built) or
 already holds the same method. -/
-theorem regG_ok_iff (verb : Bytes) (mid : Nat) (mk : Unit → Outcome Meth) (ms : List (Bytes × Meth)) (al : Option Meth) :
-    (∃ p, regG verb mid mk ms al = .ok p) ↔
+theorem regGCore_ok_iff (verb : Bytes) (mid : Nat) (mk : Unit → Outcome Meth) (ms : List (Bytes × Meth)) (al : Option Meth) :
+    (∃ p, regGCore verb mid mk ms al = .ok p) ↔
       match slotOf verb ms al with
       | some e => e.mid = mid
       | none => ∃ m, mk () = .ok m := by
-  simp only [regG, slotOf]
+  simp only [regGCore, slotOf]
   cases hs : (if verb == starVerb then al else lookupMeth ms verb) with
   | some e =>
     simp only
@@ -821,28 +865,40 @@ theorem regG_ok_iff (verb : Bytes) (mid : Nat) (mk : Unit → Outcome Meth) (ms 
     | panic s => simp
 
 /-- … and it leaves every other slot as it was. -/
-theorem slotOf_regG_other (verb1 verb2 : Bytes) (hne : verb1 ≠ verb2) (mid1 : Nat) (mk1 : Unit → Outcome Meth)
+theorem slotOf_regGCore_other (verb1 verb2 : Bytes) (hne : verb1 ≠ verb2) (mid1 : Nat) (mk1 : Unit → Outcome Meth)
     (ms : List (Bytes × Meth)) (al : Option Meth) (p1 : List (Bytes × Meth) × Option Meth)
-    (h : regG verb1 mid1 mk1 ms al = .ok p1) : slotOf verb2 p1.1 p1.2 = slotOf verb2 ms al := by
+    (h : regGCore verb1 mid1 mk1 ms al = .ok p1) : slotOf verb2 p1.1 p1.2 = slotOf verb2 ms al := by
   by_cases s1 : verb1 = starVerb
   · subst s1
     have s2 : (verb2 == starVerb) = false := by simpa using (Ne.symm hne)
-    obtain ⟨e1, _⟩ := regG_star mid1 mk1 ms al p1 h
+    obtain ⟨e1, _⟩ := regGCore_star mid1 mk1 ms al p1 h
     simp [slotOf, s2, e1]
-  · obtain ⟨e1, _⟩ := regG_verb verb1 s1 mid1 mk1 ms al p1 h
+  · obtain ⟨e1, _⟩ := regGCore_verb verb1 s1 mid1 mk1 ms al p1 h
     by_cases s2 : verb2 = starVerb
     · subst s2; simp [slotOf, e1]
     · have s2' : (verb2 == starVerb) = false := by simpa using s2
       simp only [slotOf, s2', Bool.false_eq_true, if_false]
-      rcases regG_verb_methods verb1 s1 mid1 mk1 ms al p1 h with ⟨e, _, hp⟩ | ⟨m, _, _, hp⟩
+      rcases regGCore_verb_methods verb1 s1 mid1 mk1 ms al p1 h with ⟨e, _, hp⟩ | ⟨m, _, _, hp⟩
       · rw [hp]
       · rw [hp, lookupMeth_upsert]; simp [hne]
+
+theorem regGCore_ok_transfer (verb1 verb2 : Bytes) (hne : verb1 ≠ verb2) (mid1 mid2 : Nat) (mk1 mk2 : Unit → Outcome Meth)
+    (ms : List (Bytes × Meth)) (al : Option Meth) (p1 : List (Bytes × Meth) × Option Meth)
+    (h1 : regGCore verb1 mid1 mk1 ms al = .ok p1) :
+    (∃ p, regGCore verb2 mid2 mk2 p1.1 p1.2 = .ok p) ↔ (∃ p, regGCore verb2 mid2 mk2 ms al = .ok p) := by
+  rw [regGCore_ok_iff, regGCore_ok_iff, slotOf_regGCore_other verb1 verb2 hne mid1 mk1 ms al p1 h1]
 
 theorem regG_ok_transfer (verb1 verb2 : Bytes) (hne : verb1 ≠ verb2) (mid1 mid2 : Nat) (mk1 mk2 : Unit → Outcome Meth)
     (ms : List (Bytes × Meth)) (al : Option Meth) (p1 : List (Bytes × Meth) × Option Meth)
     (h1 : regG verb1 mid1 mk1 ms al = .ok p1) :
     (∃ p, regG verb2 mid2 mk2 p1.1 p1.2 = .ok p) ↔ (∃ p, regG verb2 mid2 mk2 ms al = .ok p) := by
-  rw [regG_ok_iff, regG_ok_iff, slotOf_regG_other verb1 verb2 hne mid1 mk1 ms al p1 h1]
+  obtain ⟨m1, _, c1⟩ := regG_ok _ _ _ _ _ _ h1
+  cases hm2 : mk2 () with
+  | ok m2 =>
+    simp only [regG_of_mk verb2 mid2 mk2 m2 hm2]
+    exact regGCore_ok_transfer verb1 verb2 hne mid1 mid2 _ _ ms al p1 c1
+  | err e => simp [regG, hm2]
+  | panic s => simp [regG, hm2]
 
 /-- **Swapping two adjacent registrations**: if binding 1 then binding 2 is accepted, so is binding 2
 then binding 1, and the resulting trie is the same — provided they do not end in the same slot. -/
